@@ -159,6 +159,7 @@ type scriptReader struct {
 	afterEOF  int // number of Read calls answered (0, EOF)
 	eofSeen   bool
 	guardTrip bool
+	kept      [][]byte // StreamFace.Run: the slices handed to onPkt, NOT copied (C11.retain)
 }
 
 func (r *scriptReader) reset(data []byte) {
@@ -167,6 +168,7 @@ func (r *scriptReader) reset(data []byte) {
 
 func (r *scriptReader) arm() {
 	r.pos, r.ci, r.pendZero, r.steps, r.emptyBuf, r.afterEOF, r.guardTrip, r.eofSeen = 0, 0, false, 0, 0, 0, false, false
+	r.kept = r.kept[:0]
 	// every legitimate run needs at most one read per byte + one per zero-read + EOF
 	r.maxSteps = len(r.data) + r.ncuts + 8
 }
